@@ -6,14 +6,16 @@ open Sebuf.Bind
 
 inductive UV
   | i (v : Int) | b (v : Bool) | s (v : Str) | f (tok : Str) | fromBody
-deriving DecidableEq, Repr
+  | l (vs : List UV)   -- a `repeated` field: one element per occurrence of the parameter
+deriving Repr
 
-def uvJson : UV → Json
+partial def uvJson : UV → Json
   | .i v => Json.mkObj [("int", Json.str (toString v))]
   | .b v => Json.mkObj [("bool", Json.bool v)]
   | .s v => Json.mkObj [("str", jstr v)]
   | .f t => Json.mkObj [("float", jstr t)]
   | .fromBody => Json.mkObj [("from_body", Json.bool true)]
+  | .l vs => Json.mkObj [("list", Json.arr (vs.map uvJson).toArray)]
 
 /-- `convertStringToFieldValue` over the regenerated table; floats are a library leaf: the
 harness tells whether strconv.ParseFloat accepts the text. -/
@@ -35,11 +37,14 @@ structure UrlParam where
   required : Bool
   floatOk : Bool
   isList : Bool
+  /-- every occurrence of the parameter, with the library's ParseFloat verdict per occurrence (lists) -/
+  texts : List (Str × Bool) := []
 
 def urlParamOf (j : Json) : UrlParam :=
   { field := getStr j "f", kind := String.ofList (getStr j "kind"),
     text := (match j.getObjValAs? String "text" with | .ok s => some s.toList | .error _ => none),
-    required := getBool j "required", floatOk := getBool j "float_ok", isList := getBool j "is_list" }
+    required := getBool j "required", floatOk := getBool j "float_ok", isList := getBool j "is_list",
+    texts := (getStrList j "texts").zip ((getArr j "floats_ok").map fun b => match b with | Json.bool x => x | _ => false) }
 
 /-- bind a list of URL parameters in order; first failure wins (HTTP 400 naming the field). -/
 def bindParams (isPath : Bool) : List UrlParam → Fields UV → Except Str (Fields UV)
@@ -51,6 +56,11 @@ def bindParams (isPath : Bool) : List UrlParam → Fields UV → Except Str (Fie
       else if p.required then .error p.field else bindParams isPath ps m
     | some t =>
       if isPath && t == [] then .error p.field
+      else if !isPath && p.isList then
+        -- `for _, value := range values`: every occurrence is converted and appended
+        match p.texts.mapM (fun tv => convertUrl p.kind tv.1 tv.2) with
+        | none => .error p.field
+        | some vs => bindParams isPath ps (fset p.field (.l vs) m)
       else match convertUrl p.kind t p.floatOk with
         | none => .error p.field
         | some v => bindParams isPath ps (fset p.field v m)
